@@ -23,7 +23,7 @@ unknown valid key). `C05_text_default`: the same with the default tokenizer for 
 aliases whose keys are single words (the ScanCode table is of this kind), through C18. `C05_fixpoint`:
 the rendering of the re-parsed expression is the same text again. `C05_text_general`: the default
 tokenizer over tables *with* aliases and keys of several words — every table whose multi-word names
-contain no operator word or parenthesis (`OpWordFree`, `KwOwned`; both evaluated by the driver on the
+contain no operator word or parenthesis (`OpWordFree`; evaluated by the driver on the
 tables of the run): an expression whose known licenses are keys the table stores for them alone
 (`C05_key_ok`: every key of a table that is unambiguous in the matcher's terms) and whose unknown
 licenses use no word of a stored name renders to a text that parses back to it. What remains with
@@ -88,21 +88,20 @@ theorem C05_fixpoint (c : Cls) (hc : ClsOK c) (T : Table) (hT : SpaceFreeT c T) 
   cases h; rfl
 
 /-- **C05 (text, default tokenizer, tables with aliases and multi-word names)**: for every table whose
-    multi-word names contain no operator word or parenthesis and in which no name reads as a bare
-    operator, rendering an expression (nodes with at least two operands) and parsing the text gives the
+    multi-word names contain no operator word or parenthesis and which `Licensing` accepts, rendering an expression (nodes with at least two operands) and parsing the text gives the
     expression back, when every license of it reads back from its key (`AtomOKG`: the words of the key
     are a stored name of that license alone — `C05_key_ok` —, or the license is unknown, its key is what
     its words spell and none of them occurs in a stored name). -/
-theorem C05_text_general (c : Cls) (hc : ClsOK c) (T : Table) (hop : OpWordFree c T) (hkw : KwOwned c T)
+theorem C05_text_general (c : Cls) (hc : ClsOK c) (T : Table) (hop : OpWordFree c T) (hacc : tableRefused c T = false)
     (e : Expr Atom) (hwf : BP.WFE e) (ha : ∀ a ∈ literals e, AtomOKG c T a) :
     parseFull c T false false false (renderStr e) = .ok e :=
-  parse_render_general c hc T hop hkw e hwf ha
+  parse_render_general c hc T hop (kwOwned_of_accepted c hc T hacc) e hwf ha
 
 /-- … and that text is a fixed point of parse-then-render -/
-theorem C05_fixpoint_general (c : Cls) (hc : ClsOK c) (T : Table) (hop : OpWordFree c T) (hkw : KwOwned c T)
+theorem C05_fixpoint_general (c : Cls) (hc : ClsOK c) (T : Table) (hop : OpWordFree c T) (hacc : tableRefused c T = false)
     (e : Expr Atom) (hwf : BP.WFE e) (ha : ∀ a ∈ literals e, AtomOKG c T a) (e' : Expr Atom)
     (h : parseFull c T false false false (renderStr e) = .ok e') : renderStr e' = renderStr e := by
-  rw [C05_text_general c hc T hop hkw e hwf ha] at h
+  rw [C05_text_general c hc T hop hacc e hwf ha] at h
   cases h; rfl
 
 /-- every key of a table that is unambiguous in the matcher's terms reads back as its license -/
@@ -144,12 +143,12 @@ example :
     let T : Table := [⟨[109, 105, 116], [], false⟩, ⟨[71, 80, 76], [[103, 110, 117, 32, 103, 112, 108]], true⟩]
     let text : Str := [77, 73, 84, 32, 32, 119, 105, 116, 104, 32, 71, 78, 85, 32, 32, 32, 103, 112, 108, 32, 79, 82, 32,
       109, 121, 32, 32, 84, 104, 105, 110, 103]
-    OpWordFree asciiCls T ∧ KwOwned asciiCls T ∧
+    OpWordFree asciiCls T ∧ tableRefused asciiCls T = false ∧
     ∃ segs, SegsFor asciiCls T [.sym (.withE ⟨[109, 105, 116], false⟩ ⟨[71, 80, 76], true⟩), .or,
         .sym (.lic ⟨[109, 121, 32, 84, 104, 105, 110, 103], false⟩)] segs ∧
       segPieces segs = wordPieces asciiCls text := by
   intro T text
-  refine ⟨opWordFree_of_B _ _ (by decide), kwOwned_of_B _ _ (by decide), ?_⟩
+  refine ⟨opWordFree_of_B _ _ (by decide), (by decide), ?_⟩
   refine ⟨[([⟨0, [77, 73, 84], .word⟩], some (.sym ⟨[109, 105, 116], false⟩)), ([⟨5, [119, 105, 116, 104], .word⟩], some (.kw .with)),
     ([⟨10, [71, 78, 85], .word⟩, ⟨16, [103, 112, 108], .word⟩], some (.sym ⟨[71, 80, 76], true⟩)),
     ([⟨20, [79, 82], .word⟩], some (.kw .or)),
@@ -170,13 +169,13 @@ example :
 example :
     let T : Table := [⟨[109, 105, 116], [], false⟩, ⟨[71, 80, 76], [[103, 110, 117, 32, 103, 112, 108]], true⟩,
       ⟨[65, 112, 97, 99, 104, 101, 32, 50], [], false⟩]
-    OpWordFree asciiCls T ∧ KwOwned asciiCls T ∧ namesUniqueB asciiCls T = true ∧
+    OpWordFree asciiCls T ∧ tableRefused asciiCls T = false ∧ namesUniqueB asciiCls T = true ∧
     (∀ a ∈ literals (Expr.node .or [.atom (.withE ⟨[109, 105, 116], false⟩ ⟨[71, 80, 76], true⟩),
         .node .and [.atom (.lic ⟨[109, 121, 32, 84, 104, 105, 110, 103], false⟩), .atom (.lic ⟨[65, 112, 97, 99, 104, 101, 32, 50], false⟩)]]),
       AtomOKG asciiCls T a) := by
   intro T
   have hu : namesUniqueB asciiCls T = true := by decide
-  refine ⟨opWordFree_of_B _ _ (by decide), kwOwned_of_B _ _ (by decide), hu, ?_⟩
+  refine ⟨opWordFree_of_B _ _ (by decide), (by decide), hu, ?_⟩
   intro a ha
   simp [literals] at ha
   rcases ha with rfl | rfl | rfl
@@ -193,13 +192,13 @@ example :
     let text : Str := [109, 105, 116, 32, 111, 114, 32, 103, 112, 108, 32, 111, 114, 32, 108, 97, 116, 101, 114]
     let segs : List (Seg TVal) := [([⟨0, [109, 105, 116], .word⟩], some (.sym ⟨[109, 105, 116], false⟩)), ([⟨4, [111, 114], .word⟩], some (.kw .or)),
       ([⟨7, [103, 112, 108], .word⟩, ⟨11, [111, 114], .word⟩, ⟨14, [108, 97, 116, 101, 114], .word⟩], some (.sym ⟨[103, 112, 108], false⟩))]
-    ¬ OpWordFree asciiCls T ∧ KwOwned asciiCls T ∧
+    ¬ OpWordFree asciiCls T ∧ tableRefused asciiCls T = false ∧
     SegsFor asciiCls T [.sym (.lic ⟨[109, 105, 116], false⟩), .or, .sym (.lic ⟨[103, 112, 108], false⟩)] segs ∧
     segPieces segs = wordPieces asciiCls text ∧
     (∀ k ∈ (buildTrie asciiCls T).iter asciiCls text true, k.val.isSome = true →
       ∃ sg ∈ segs, ∃ p ∈ sg.1, ∃ p' ∈ sg.1, k.s = p.start ∧ k.e = p'.stop) := by
   intro T text segs
-  refine ⟨?_, kwOwned_of_B _ _ (by decide), ?_, by decide, by decide⟩
+  refine ⟨?_, (by decide), ?_, by decide, by decide⟩
   · intro h
     have := h ([103, 112, 108, 32, 111, 114, 32, 108, 97, 116, 101, 114], .sym ⟨[103, 112, 108], false⟩) (by decide) [111, 114] (by decide) (by decide)
     revert this; decide
